@@ -29,7 +29,7 @@ EDITS = [
 
 
 def derive_ops():
-    ops = [('copy',), ('deepcopy',), ('pickle',), ('inverted',), ('transposed',)]
+    ops = [('copy',), ('inverted',), ('transposed',)]     # deepcopy / pickle are not named by C14: their determinism is checked in C17
     for ig in (False, True):
         ops += [('union', ig), ('intersection', ig)]
     ops += [('op_or',), ('op_and',), ('op_invert',), ('op_neg',)]
